@@ -68,7 +68,8 @@ package phase5
 //@     invariant forall i int :: 0 <= i && i < c ==> allocatedArr(routes[i].Points) && arr(routes[i].Points) != arr(r.Points)
 //@     invariant[|C05,C06] forall i int :: 0 <= i && i < c && routes[i].From.Layer != routes[i].To.Layer ==> polyEnds(routes[i])
 //@     invariant[|C06,C12] forall i int :: 0 <= i && i < c && routes[i].From.Layer != routes[i].To.Layer ==> len(routes[i].Points) == len(routes[i].ns) && polyBends(g, routes[i])
-//@     invariant allocatedArr(r.Points) && len(r.Points) == 1 + j
+//@     invariant allocatedArr(r.Points) && len(r.Points) >= 1
+//@     invariant[|C06,C12,C01] len(r.Points) == 1 + j
 //@     invariant[|C05,C06] r.Points[0][0] == startX(r.ns[0]) && r.Points[0][1] == startY(r.ns[0])
 //@     invariant[|C06,C12] forall t int :: 0 < t && t <= j ==> r.Points[t][0] == bendX(r.ns[t]) && r.Points[t][1] == bendY(g, r.ns[t])
 
